@@ -1337,6 +1337,8 @@ class Interp:
         """In-place write of `newterm` through the view `tv`."""
         obj = tv.obj
         self.effect("meta" if meta else "write", obj, node, detail)
+        if detail != "set .data":
+            obj.version += 1
         if not tv.view:
             obj.term = newterm
             if newshape is not None:
